@@ -411,6 +411,85 @@ let tx_str (o : tx_out) =
     (rf_str o.to_rx1) (rf_str o.to_rx2) (dec_of_n o.to_counter) (hex_of_bytes o.to_frame)
 
 exception Stop of string
+(* ---- JSON glue for the persistence model (C20): text <-> Persist.jv.  Trusted: a plain recursive-descent reader and a printer
+   that mimics serde_json's compact output.  Integers of any size become JInt (decimal -> Z); floats / exponents / strings JOther. *)
+exception Json_syntax
+let key_of_string = function
+  | "uplink" -> Kuplink | "confirmed" -> Kconfirmed | "nwkskey" -> Knwkskey | "appskey" -> Kappskey | "devaddr" -> Kdevaddr
+  | "fcnt_up" -> Kfcnt_up | "fcnt_down" -> Kfcnt_down | "adr_ack_cnt" -> Kadr_ack_cnt | "pending_len" -> Kpending_len
+  | "pending_data" -> Kpending_data | s -> Kother (n_of_int (Hashtbl.hash s land 0xFFFFFF + 1))
+let string_of_key = function
+  | Kuplink -> "uplink" | Kconfirmed -> "confirmed" | Knwkskey -> "nwkskey" | Kappskey -> "appskey" | Kdevaddr -> "devaddr"
+  | Kfcnt_up -> "fcnt_up" | Kfcnt_down -> "fcnt_down" | Kadr_ack_cnt -> "adr_ack_cnt" | Kpending_len -> "pending_len"
+  | Kpending_data -> "pending_data" | Kother _ -> "other"
+let z_of_decimal (s : string) : z =
+  (* s: optional '-' then digits *)
+  let neg = String.length s > 0 && s.[0] = '-' in
+  let digits = if neg then String.sub s 1 (String.length s - 1) else s in
+  let ten = n_of_int 10 in
+  let v = ref N0 in
+  String.iter (fun c -> v := N.add (N.mul !v ten) (n_of_int (Char.code c - 48))) digits;
+  match !v with N0 -> Z0 | Npos p -> if neg then Zneg p else Zpos p
+let parse_json (s : string) : jv =
+  let n = String.length s in
+  let i = ref 0 in
+  let peek () = if !i < n then s.[!i] else raise Json_syntax in
+  let ws () = while !i < n && (s.[!i] = ' ' || s.[!i] = '\n' || s.[!i] = '\t' || s.[!i] = '\r') do incr i done in
+  let expect c = if peek () = c then incr i else raise Json_syntax in
+  let lit w v = if !i + String.length w <= n && String.sub s !i (String.length w) = w then (i := !i + String.length w; v) else raise Json_syntax in
+  let str () =
+    expect '"';
+    let b = Buffer.create 16 in
+    while peek () <> '"' do
+      if peek () = '\\' then (incr i; Buffer.add_char b (peek ()); incr i) else (if Char.code (peek ()) < 32 then raise Json_syntax; Buffer.add_char b (peek ()); incr i)
+    done; incr i; Buffer.contents b in
+  let rec value () =
+    ws ();
+    match peek () with
+    | 'n' -> lit "null" JNull
+    | 't' -> lit "true" (JBool true)
+    | 'f' -> lit "false" (JBool false)
+    | '"' -> ignore (str ()); JOther
+    | '[' ->
+      incr i; ws ();
+      if peek () = ']' then (incr i; JArr []) else begin
+        let items = ref [value ()] in
+        ws ();
+        while peek () = ',' do incr i; items := value () :: !items; ws () done;
+        expect ']'; JArr (List.rev !items) end
+    | '{' ->
+      incr i; ws ();
+      if peek () = '}' then (incr i; JObj []) else begin
+        let one () = ws (); let k = str () in ws (); expect ':'; let v = value () in (key_of_string k, v) in
+        let items = ref [one ()] in
+        ws ();
+        while peek () = ',' do incr i; items := one () :: !items; ws () done;
+        expect '}'; JObj (List.rev !items) end
+    | c when c = '-' || (c >= '0' && c <= '9') ->
+      let st = !i in
+      if c = '-' then incr i;
+      let d0 = !i in
+      while !i < n && s.[!i] >= '0' && s.[!i] <= '9' do incr i done;
+      if !i = d0 then raise Json_syntax;
+      if !i - d0 > 1 && s.[d0] = '0' then raise Json_syntax;
+      let is_int = not (!i < n && (s.[!i] = '.' || s.[!i] = 'e' || s.[!i] = 'E')) in
+      if is_int then JInt (z_of_decimal (String.sub s st (!i - st)))
+      else begin
+        if s.[!i] = '.' then (incr i; let f0 = !i in while !i < n && s.[!i] >= '0' && s.[!i] <= '9' do incr i done; if !i = f0 then raise Json_syntax);
+        if !i < n && (s.[!i] = 'e' || s.[!i] = 'E') then begin
+          incr i; if !i < n && (s.[!i] = '+' || s.[!i] = '-') then incr i;
+          let e0 = !i in while !i < n && s.[!i] >= '0' && s.[!i] <= '9' do incr i done; if !i = e0 then raise Json_syntax end;
+        JOther end
+    | _ -> raise Json_syntax in
+  let v = value () in
+  ws (); if !i <> n then raise Json_syntax; v
+let dec_of_z = function Z0 -> "0" | Zpos p -> dec_of_n (Npos p) | Zneg p -> "-" ^ dec_of_n (Npos p)
+let rec print_json = function
+  | JNull -> "null" | JBool b -> if b then "true" else "false" | JInt z -> dec_of_z z | JOther -> "\"?\""
+  | JArr l -> "[" ^ String.concat "," (List.map print_json l) ^ "]"
+  | JObj l -> "{" ^ String.concat "," (List.map (fun (k, v) -> "\"" ^ string_of_key k ^ "\":" ^ print_json v) l) ^ "}"
+let string_of_hex h = let b = Buffer.create 64 in List.iter (fun x -> Buffer.add_char b (Char.chr (int_of_n x))) (bytes_of_hex h); Buffer.contents b
+
 let run_mac_history (line : string) : string =
   let parts = List.map String.trim (String.split_on_char '|' line) in
   let head = List.filter (fun s -> s <> "") (String.split_on_char ' ' (List.hd parts)) in
@@ -478,7 +557,20 @@ let run_mac_history (line : string) : string =
              | _ -> s := { !s with ss_adr_ack_cnt = n_of_dec v }) kvs;
            m := with_state !m (Joined !s); out := "patched" :: !out
          | _ -> out := "nosession" :: !out)
-      | "serde" :: _ -> out := (match !m.m_state with Joined _ -> "restored" | _ -> "nosession") :: !out
+      | "serde" :: _ ->
+        (match !m.m_state with
+         | Joined s0 -> (match restore s0 with
+                         | Some s1 -> m := with_state !m (Joined s1); out := "restored" :: !out
+                         | None -> out := "deser-error (model)" :: !out)
+         | _ -> out := "nosession" :: !out)
+      | "serjson" :: _ ->
+        out := (match !m.m_state with Joined s0 -> print_json (ser_session s0) | _ -> "nosession") :: !out
+      | "dejson" :: h :: _ ->
+        (match (try Some (parse_json (string_of_hex h)) with Json_syntax -> None) with
+         | None -> out := "rejected" :: !out
+         | Some j -> (match de_session j with
+                      | Some s1 -> m := with_state !m (Joined s1); out := ("accepted " ^ print_json (ser_session s1)) :: !out
+                      | None -> out := "rejected" :: !out))
       | _ -> out := "BADOP" :: !out) (List.tl parts)
   with Stop s -> out := s :: !out);
   String.concat " ; " (List.rev !out)
